@@ -397,6 +397,8 @@ class BVReduceBW:
         for b in bws:
             if 0 < b < bw:
                 varname = '_{}'.format(node[1])
+                while is_declared(varname):
+                    varname = '_' + varname
                 var = Node('declare-const', varname, Node('_', 'BitVec', b))
                 zext = Node('define-fun', node[1], (), get_sort(node[1]),
                             Node(Node('_', 'zero_extend', bw - b), varname))
